@@ -2020,6 +2020,13 @@ func createRoutingKey(routingKeyInfo *routingKeyInfo, values []interface{}) ([]b
 		return nil, nil
 	}
 
+	for _, index := range routingKeyInfo.indexes {
+		if index < 0 || index >= len(values) {
+			// the values do not match the statement, executing it reports that
+			return nil, fmt.Errorf("gocql: no value bound for partition key column %d (have %d values)", index, len(values))
+		}
+	}
+
 	if len(routingKeyInfo.indexes) == 1 {
 		// single column routing key
 		routingKey, err := Marshal(
